@@ -203,7 +203,11 @@ func (j jspec) label() string {
 		case kDRA:
 			s += fmt.Sprintf("dra:%d", t.N)
 		}
-		s += fmt.Sprintf("/cpu%d/mem%d/node%d", t.CPUm, t.MemMB, t.NodeMem)
+		s += fmt.Sprintf("/cpu%d/mem%d", t.CPUm, t.MemMB)
+		if t.MemB > 0 {
+			s += fmt.Sprintf("+%dB", t.MemB)
+		}
+		s += fmt.Sprintf("/node%d", t.NodeMem)
 		if t.State != "" {
 			s += "=" + t.State
 		}
